@@ -705,7 +705,7 @@ func run(c *hc.Ctx) error {
 		mr.Evaluate(sc, nil)
 	}
 	for i, n := 0, c.N(400, 8000); i < n; i++ {
-		sc, plain := mgr.Gen(r, mgr.GenOptions{Channels: hc.Pick(r, 0, 1, 2), TooLong: r.Chance(20), MaxEntries: hc.Pick(r, 4, 8, 12), Affected: r.Chance(50), Foreign: r.Chance(40), Faults: r.Chance(30), Fresh: r.Chance(50), Seq: r.Chance(40), Users: r.Chance(35), Private: r.Chance(35)})
+		sc, plain := mgr.Gen(r, mgr.GenOptions{Channels: hc.Pick(r, 0, 1, 2), TooLong: r.Chance(20), MaxEntries: hc.Pick(r, 4, 8, 12), Affected: r.Chance(50), Foreign: r.Chance(40), Faults: r.Chance(30), Fresh: r.Chance(50), Seq: r.Chance(40), Users: r.Chance(35), Private: r.Chance(35), First: r.Chance(20)})
 		c.Count("manager.scenarios")
 		mr.Evaluate(sc, plain)
 	}
